@@ -987,44 +987,61 @@ func (c *Ctx) anyVarKindsSafe(o types.Object, pvCases map[string]bool, depth int
 	return true, "producers yield " + strings.Join(keysOf(set), "|")
 }
 
-// producerKinds: the static types of the first result on every success return of f (a function of this package returning (any, …)).
+// producerKinds: the static types of the first result on every returning path of f (a function of this package returning (any, …)),
+// read off its SX paths, so result variables, single-exit style and helpers do not matter.
 func (c *Ctx) producerKinds(f *types.Func, pvCases map[string]bool, depth int) ([]string, string) {
 	fd := c.DeclOf(f)
 	if fd == nil || fd.Body == nil {
 		return nil, "producer " + f.Name() + " has no body"
 	}
 	var kinds []string
-	for _, r := range returnsOf(fd.Body) {
-		if len(r.Results) == 0 {
-			return nil, "producer " + f.Name() + " uses a bare return"
-		}
-		e := r.Results[0]
-		if c.isNil(e) {
+	var kindOf func(t Term, d int) string
+	kindOf = func(t Term, d int) string {
+		if _, isNil := t.(TNil); isNil {
 			kinds = append(kinds, "nil")
-			continue
+			return ""
 		}
-		t := c.typeOf(e)
-		if t == nil {
-			return nil, "untyped result in " + f.Name()
+		if cv, ok := t.(TConv); ok && cv.To != nil && isEmptyIface(cv.To) {
+			return kindOf(cv.X, d)
 		}
-		if tup, ok := t.(*types.Tuple); ok && len(r.Results) == 1 && tup.Len() > 0 {
-			t = tup.At(0).Type() // return g(…): the first result of the forwarded call
-			if isEmptyIface(t) {
-				if call, isCall := unparen(e).(*ast.CallExpr); isCall && c.callee(call) != nil && c.callee(call).Pkg() == c.Types && depth < 3 {
-					ks, why := c.producerKinds(c.callee(call), pvCases, depth+1)
-					if why != "" {
-						return nil, why
-					}
-					kinds = append(kinds, ks...)
-					continue
-				}
+		if tt := c.termType(t); tt != nil && !isEmptyIface(tt) {
+			if _, isTuple := tt.(*types.Tuple); !isTuple {
+				kinds = append(kinds, shortType(tt))
+				return ""
 			}
 		}
-		if !isEmptyIface(t) {
-			kinds = append(kinds, shortType(t))
+		// a value of type any handed on from another producer of this package
+		var call *TCall
+		switch x := t.(type) {
+		case TProj:
+			if cl, ok := x.X.(TCall); ok && x.K == 0 {
+				call = &cl
+			}
+		case TCall:
+			call = &x
+		}
+		if call != nil && call.Fun != nil && call.Fun.Pkg() == c.Types && d < 3 {
+			ks, why := c.producerKinds(call.Fun, pvCases, d+1)
+			if why != "" {
+				return why
+			}
+			kinds = append(kinds, ks...)
+			return ""
+		}
+		return "producer " + f.Name() + " returns a value of type any of unknown origin: " + c.termStr(t)
+	}
+	x := c.NewSX()
+	for _, p := range x.Run(fd) {
+		if p.Why != "" {
+			return nil, "producer " + f.Name() + " outside the path vocabulary: " + p.Why
+		}
+		if p.End != "return" {
 			continue
 		}
-		if ok, why := c.anyVarKindsSafe(c.obj(e), pvCases, depth+1); !ok {
+		if len(p.Vals) == 0 {
+			return nil, "producer " + f.Name() + " returns nothing"
+		}
+		if why := kindOf(p.Vals[0], depth); why != "" {
 			return nil, why
 		}
 	}
